@@ -116,6 +116,7 @@ type cnode struct {
 	proposedBy  []string
 	panicked    string
 	failNext    string // kind of the next message whose send fails (set by a directed schedule)
+	regSeq      int    // number of RegisterOnElection calls so far (one-shot timers: a firing spends the arming it belongs to)
 	isReplica   bool
 	inputs      []inputRec // every input the node was given, in order: a copy of the node is obtained by replaying them
 
@@ -232,6 +233,7 @@ func (n *cnode) ValidateBlockCommitment(blockHeight primitives.BlockHeight, bloc
 // --- ElectionScheduler
 func (n *cnode) RegisterOnElection(blockHeight primitives.BlockHeight, view primitives.View, cb func(blockHeight primitives.BlockHeight, view primitives.View, onElectionCB interfaces.OnElectionCallback)) {
 	n.regH, n.regV, n.regCb = uint64(blockHeight), uint64(view), cb
+	n.regSeq++
 }
 func (n *cnode) ElectionChannel() chan *interfaces.ElectionTrigger { return n.elecCh }
 func (n *cnode) CalcTimeout(view primitives.View) time.Duration {
@@ -321,6 +323,7 @@ type cluster struct {
 	bodiesMu               sync.Mutex
 	byHash                 map[string]string
 	sendFailEvery, sendSeq int // every k-th send of a correct node fails (0: never)
+	oneShotTimer           bool // a fired registration is spent unless the node registered again while handling it
 	// membership change: from height exclFrom on (0: never) member exclIdx is no longer in the committee; its place (and weight)
 	// is taken by the identity after the adversary's outsider, a member nobody plays (silent)
 	exclIdx   int
@@ -522,7 +525,13 @@ func (n *cnode) timeout() bool {
 		MoveToNextLeader: func() { cb(primitives.BlockHeight(h), primitives.View(v), nil) },
 		Hv:               state.NewHeightView(primitives.BlockHeight(h), primitives.View(v)),
 	})
+	seq := n.regSeq
 	n.step()
+	// the real timer fires once per arming: unless the node armed it again while it handled the trigger, there is no timer any more
+	// (liveness driver only: a member that leaves an election without a timer is then seen for what it is, seeded change Q06)
+	if n.cl.oneShotTimer && n.regSeq == seq {
+		n.regCb = nil
+	}
 	return true
 }
 
